@@ -182,6 +182,44 @@ def BlockCreateStats (sp : Bool) (cell_slice : Frag) : Rd.R := do
       none
 -- END BlockCreateStats
 
+-- BEGIN ConfigParams
+def ConfigParams (sp : Bool) (cell_slice : Frag) : Rd.R := do
+  let (t1, cell_slice) ← Rd.loadBytes 32 cell_slice
+  let (c2, cell_slice) ← Rd.loadRef cell_slice
+  let r3 := Rd.beginParse c2
+  let (t4, _) ← Rd.loadHashmapS 32 Rd.refSlice (Rd.special c2) r3
+  pure ((Rd.obj "ConfigParams" [("config_addr", (Rd.hex t1)), ("config", t4)]), cell_slice)
+-- END ConfigParams
+
+-- BEGIN McStateExtra
+def McStateExtra (sp : Bool) (cell_slice : Frag) : Rd.R := do
+  if sp then do
+    pure (Val.unit, cell_slice)
+  else do
+    let (t1, cell_slice) ← Rd.loadBytes 2 cell_slice
+    if (!Rd.veq t1 (Rd.bytesLit [204, 38])) then none else
+    let (t2, cell_slice) ← Rd.loadShardHashes ShardDescr cell_slice
+    let (t3, cell_slice) ← ConfigParams sp cell_slice
+    let (c4, cell_slice) ← Rd.loadRef cell_slice
+    let r5 := Rd.beginParse c4
+    let sl_ref := r5
+    let (t6, sl_ref) ← Rd.loadUint 16 sl_ref
+    let b7 ← Rd.vle t6 (Val.int 1)
+    if (!b7) then none else
+    let (t8, sl_ref) ← Src.ValidatorInfo (Rd.special c4) sl_ref
+    let (t9, sl_ref) ← OldMcBlocksInfo (Rd.special c4) sl_ref
+    let (t10, sl_ref) ← Rd.loadBool sl_ref
+    let (t11, sl_ref) ← Rd.optional sl_ref (Src.ExtBlkRef (Rd.special c4))
+    let t12 := Val.unit
+    let b13 ← Rd.lowBit t6
+    let (t15, sl_ref) ← (if b13 then do
+          let (t14, sl_ref) ← BlockCreateStats (Rd.special c4) sl_ref
+          pure (t14, sl_ref)
+        else pure (t12, sl_ref))
+    let (t16, cell_slice) ← SrcTx.CurrencyCollection sp cell_slice
+    pure ((Rd.obj "McStateExtra" [("shard_hashes", t2), ("config", t3), ("flags", t6), ("validator_info", t8), ("prev_blocks", t9), ("after_key_block", t10), ("last_key_block", t11), ("block_create_stats", t15), ("global_balance", t16)]), cell_slice)
+-- END McStateExtra
+
 /-- the readers by class name (driver op `tlbsrcblk`) -/
 def readers : List (String × (Bool → Frag → Rd.R)) := [
   ("DepthBalanceInfo", DepthBalanceInfo),
@@ -193,6 +231,8 @@ def readers : List (String × (Bool → Frag → Rd.R)) := [
   ("ValidatorSet", ValidatorSet),
   ("ShardAccounts", ShardAccounts),
   ("OldMcBlocksInfo", OldMcBlocksInfo),
-  ("BlockCreateStats", BlockCreateStats)]
+  ("BlockCreateStats", BlockCreateStats),
+  ("ConfigParams", ConfigParams),
+  ("McStateExtra", McStateExtra)]
 
 end TonVerif.Tlb.SrcBlk
